@@ -92,19 +92,22 @@ let op_rl_relay a =
   let g = !rl_g in
   let g = if pn > rl_big_threshold then { g with bok = false } else g in
   let sec = rl_sec_of_key (str a "sec" "-") in
-  let line logged live item =
+  let line logged live item eps0 eps1 =
     let live = List.sort compare (List.map int_of_z live) in
     let ls = String.concat ";" (List.map (fun i -> Printf.sprintf "%d=%s" i item) live) in
-    Printf.sprintf "rl_relay logged=%d live=%s" (if logged then 1 else 0) (if ls = "" then "-" else ls) in
+    Printf.sprintf "rl_relay logged=%d live=%s conn=%s pos0=%s pos=%s" (if logged then 1 else 0) (if ls = "" then "-" else ls)
+      (String.concat "" (List.map (fun e -> if e.rl_ep_conn then "1" else "0") eps0))
+      (String.concat "," (List.map (fun e -> zs e.rl_ep_pos) eps0))
+      (String.concat "," (List.map (fun e -> zs e.rl_ep_pos) eps1)) in
   let lb = ref "" and lx = ref "" in
   let g = if g.bok then begin
       let msg = rl_x_expand xm in
       let r = rl_relay rl_topo0 (z_of_int !now) sec msg g.b in
-      lb := line r.rl_rl_logged r.rl_rl_live (rl_item_string (RlOutMsg msg));
+      lb := line r.rl_rl_logged r.rl_rl_live (rl_item_string (RlOutMsg msg)) g.b.rl_eps r.rl_rl_st.rl_eps;
       { g with b = r.rl_rl_st } end else g in
   let g = if g.xok then begin
       let r = rl_x_relay rl_topo0 (z_of_int !now) sec xm g.x in
-      lx := line r.rl_xrl_logged r.rl_xrl_live (rl_xmsg_string xm);
+      lx := line r.rl_xrl_logged r.rl_xrl_live (rl_xmsg_string xm) g.x.rl_x_eps r.rl_xrl_st.rl_x_eps;
       { g with x = r.rl_xrl_st } end else g in
   rl_g := g;
   rl_emit2 (fun () -> !lb) (fun () -> !lx)
@@ -266,32 +269,38 @@ let oracle_c12_case script trace =
   let pending_move = ref None in
   let eps_obs () = List.mapi (fun i e -> if !have_obs && i < Array.length !obs_eps
                                 then { e with rl_ep_pos = z_of_int (fst (!obs_eps).(i)); rl_ep_rpos = z_of_int (snd (!obs_eps).(i)) } else e) (rl_glue_eps !main) in
+  (* the observation conn= pos0= pos= of rl_relay / rl_from: positions of endpoints that were not connected did not move *)
+  let check_posmove from l =
+    let t = toks_of l in
+    let gets k = match tok_val t k with Some v -> v | None -> "" in
+    let conn = gets "conn" and p0 = List.map int_of_string (split_on ',' (gets "pos0")) and p1 = List.map int_of_string (split_on ',' (gets "pos")) in
+    if String.length conn = List.length p0 && List.length p0 = List.length p1 && p0 <> [] then begin
+      let obs = List.mapi (fun i b -> (((conn.[i] = '1', false), z_of_int b), z_of_int (List.nth p1 i))) p0 in
+      if not (rl_or_posmove obs) && !pending_move = None then begin
+        let k = ref 0 in
+        List.iteri (fun i b -> if !k = 0 && conn.[i] <> '1' && b <> List.nth p1 i then k := i + 1) p0;
+        pending_move := Some (!k, Printf.sprintf "position-moved-while-away e=%d from=%s before=%d after=%d" !k from
+                                    (List.nth p0 (max 0 (!k - 1))) (List.nth p1 (max 0 (!k - 1)))) end end
+    else fail ("crash malformed position observation: " ^ l) in
   List.iter (fun line -> if !err = None then
     match parse_line line with
     | Some ("now", a) -> now := tnum (List.hd a.pos)
     | Some ("rl_init", a) -> both (fun () -> op_rl_init a); damaged := false; corrupted := false; have_obs := false;
                              pending_timer := None; pending_restart := None;
-                             (match !pending_move with Some m -> fail m | None -> ())
+                             (match !pending_move with Some (_, m) -> fail m | None -> ())
     | Some ("rl_from", a) ->
       let id = num a "e" 0 in
       rl_g := !main;
       if (rl_get id).rl_ep_conn then begin
         let l = pop () in
         if !err = None then begin
-          let t = toks_of l in
-          let gets k = match tok_val t k with Some v -> v | None -> "" in
-          let conn = gets "conn" and p0 = List.map int_of_string (split_on ',' (gets "pos0")) and p1 = List.map int_of_string (split_on ',' (gets "pos")) in
-          if String.length conn = List.length p0 && List.length p0 = List.length p1 && p0 <> [] then begin
-            let obs = List.mapi (fun i b -> (((conn.[i] = '1', false), z_of_int b), z_of_int (List.nth p1 i))) p0 in
-            if not (rl_or_posmove obs) && !pending_move = None then begin
-              let k = ref 0 in
-              List.iteri (fun i b -> if !k = 0 && conn.[i] <> '1' && b <> List.nth p1 i then k := i + 1) p0;
-              pending_move := Some (Printf.sprintf "position-moved-while-away e=%d from=%d before=%d after=%d" !k id
-                                      (List.nth p0 (max 0 (!k - 1))) (List.nth p1 (max 0 (!k - 1)))) end end
-          else fail ("crash malformed rl_from observation: " ^ l) end end;
+          check_posmove (string_of_int id) l end end;
       have_obs := false;
       both (fun () -> op_rl_from a)
-    | Some ("rl_relay", a) -> ignore (pop ()); have_obs := false (* the log and the positions of skipped endpoints change *); both (fun () -> op_rl_relay a)
+    | Some ("rl_relay", a) ->
+      let l = pop () in
+      if !err = None then check_posmove "local" l;
+      have_obs := false (* the log and the positions of skipped endpoints change *); both (fun () -> op_rl_relay a)
     | Some ("rl_conn", a) ->
       let l = pop () in
       if !err = None then begin
@@ -306,12 +315,12 @@ let oracle_c12_case script trace =
                       fail (Printf.sprintf "resend e=%d pos=%d item=%s" id pos m)
                     | _ -> ()) msgs;
         (* an endpoint whose position moved while it was away: judged by the position the MODEL holds (= the one it confirmed) *)
-        if !pending_move <> None && not !damaged && int_of_z ep.rl_ep_dur <> 0 then begin
+        if (match !pending_move with Some (k, _) -> k = id | None -> false) && not !damaged && int_of_z ep.rl_ep_dur <> 0 then begin
           let mep = List.nth (rl_glue_eps !main) (id - 1) in
           let log = rl_glue_log !main in
           if rl_strict_b log && not (rl_or_damaged rl_topo0 mep.rl_ep_zone mep.rl_ep_pos log delivered) then
             fail (Printf.sprintf "away-endpoint-not-replayed e=%d confirmed=%s got=%s (%s)" id (zs mep.rl_ep_pos) (String.concat "," msgs)
-                    (match !pending_move with Some m -> m | None -> "")) end;
+                    (match !pending_move with Some (_, m) -> m | None -> "")) end;
         if !err <> None then ()
         else if int_of_z ep.rl_ep_dur = 0 then begin
           if msgs <> [] then fail (Printf.sprintf "replay-mismatch e=%d log_duration=0 but got=%s" id (String.concat "," msgs)) end
@@ -384,7 +393,7 @@ let oracle_c12_case script trace =
       if num a "lax" 0 <> 0 then ignore (pop ());
       on main (fun () -> op_rl_corrupt a); on intact (fun () -> op_rl_trunc a)
     | _ -> ()) script;
-  (match !pending_move with Some m -> fail m | None -> ());
+  (match !pending_move with Some (_, m) -> fail m | None -> ());
   !err
 
 let () =
